@@ -120,7 +120,15 @@ def scenario_digests(job, seed):
     pol = explore.Policy(pseed=h64(seed, "p"), lazy_pct=[0, 50][seed % 2])
     explore.run_free(run, pol, hook=inj, max_steps=120)
     if run.status() == "failed" and not run.inflight and seed % 2 == 0:
-        run.rerun(None)
+        recs = run.last["state"]["sequence"]
+        failed = sorted(set((r["id"], r["route"]) for r in recs if r.get("status") == "failed" and r["id"] in wf["tasks"]))
+        others = sorted(set((r["id"], r["route"]) for r in recs if r.get("status") == "succeeded" and r["id"] in wf["tasks"]))
+        if seed % 4 == 0 and len(failed) + len(others) >= 2:
+            # several tasks named in one request (their order in the request must not matter to what is persisted)
+            reqs = [(t, r, False) for t, r in (failed + others)[:4]]
+            run.rerun(reqs)
+        else:
+            run.rerun(None)
         explore.run_free(run, pol, start=False, max_steps=60)
     out["steps"] = [dg([o["op"], o["status"], o.get("extra"), o["full"]]) for o in run.oplog]
     out["final"] = dg([run.status(), run.c.errors, run.c.get_workflow_output()])
